@@ -40,7 +40,10 @@ func vC17Source() vIonScalar {
 		v.doc = vTLV(code, body...)
 	case 1: // boundary int
 		v.typ, v.neg = IntType, vnondetBool()
-		v.mag = vC17Mags[vnondetInt(0, len(vC17Mags)-1)] + uint64(vnondetInt(0, 1))
+		v.mag = vC17Mags[vnondetInt(0, len(vC17Mags)-1)]
+		if vnondetBool() { // the boundary value and its successor, as two paths (keeps the magnitude concrete)
+			v.mag++
+		}
 		var body []byte
 		for i := 7; i >= 0; i-- {
 			body = append(body, byte(v.mag>>(8*uint(i))))
